@@ -143,5 +143,5 @@ class SocketSpawn(SpawnBase):
                 s = self._decoder.decode(s, final=False)
                 self._log(s, 'read')
                 return s
-        except socket.timeout:
+        except (socket.timeout, BlockingIOError):
             raise TIMEOUT("Timeout exceeded.")
